@@ -313,6 +313,12 @@ def step (line : String) : String :=
   | ["scr_parse", b] => orBad do
       let b ← unhex b
       pure (optS (fun (r : List Script.Cmd × Bytes) => listS cmdS r.1 ++ " " ++ hexS r.2) (Script.parse b))
+  | ["scr_parse", b, k] => orBad do    -- stream already positioned after `k` bytes
+      let b ← unhex b; let k ← unnat k
+      pure (optS (fun (r : List Script.Cmd × Bytes) => listS cmdS r.1 ++ " " ++ hexS r.2) (Script.parse (b.drop k)))
+  | ["vi_read", b, k] => orBad do
+      let b ← unhex b; let k ← unnat k
+      pure (optS (fun (r : Nat × Bytes) => toString r.1 ++ " " ++ hexS r.2) (Varint.readVarint (b.drop k)))
   | ["vi_enc", n] => orBad do let n ← unnat n; pure (optS hexS (Varint.encodeVarint n))
   | ["vi_read", b] => orBad do
       let b ← unhex b
@@ -338,6 +344,14 @@ def step (line : String) : String :=
   | ["ckd", nd, ls, prf] => orBad do
       let nd ← unnode nd; let ls ← unlist unnat ls; let prf ← unprf prf
       pure (optS nodeS (Bip32.derivePath (primsWith prf []) nd ls))
+  -- C18: the SAME node object is asked again and again (`c` = ckd, `d` = derive_path of the one-element list);
+  -- in the model a node is a value, so every request gives the answer of the first
+  | ["ckd_retry", nd, i, prf, pat] => orBad do
+      let nd ← unnode nd; let i ← unnat i; let prf ← unprf prf
+      let one := match Bip32.derivePath (primsWith prf []) nd [i] with
+        | none => "err"
+        | some c => nodeS c
+      pure (okS (" ; ".intercalate (pat.toList.map fun _ => one)))
   | ["master", seed, t, prf] => orBad do
       let seed ← unhex seed; let t ← unbool t; let prf ← unprf prf
       pure (optS nodeS (Bip32.masterKey (primsWith prf []) seed t))
@@ -355,6 +369,10 @@ def step (line : String) : String :=
       if form = "s" then do
         let s ← unstr payload
         pure (optS nodeS (Bip32.parseStr P0 isPrv t s))
+      else if form.startsWith "io@" then do   -- stream already positioned after `k` bytes
+        let k ← unnat (form.drop 3).toString
+        let b ← unhex payload
+        pure (okS (nodeS (Bip32.parseBytes isPrv t (b.drop k))))
       else do
         let b ← unhex payload
         pure (okS (nodeS (Bip32.parseBytes isPrv t b)))
@@ -458,6 +476,24 @@ def step (line : String) : String :=
   | ["paranoia", w, acct, a, b] => orBad do
       let (P, w) ← unwallet w; let acct ← unnat acct; let a ← unnat a; let b ← unnat b
       pure (optS jsonS (w.bind fun w => (Wallet.generate P w acct a b).bind Wallet.paranoia))
+  -- results HELD by the caller while a later request is served: values never change after they are returned
+  | ["paranoia_seq", w1, acct1, a1, b1, w2, acct2, a2, b2] => orBad do
+      let (P1, w1) ← unwallet w1; let acct1 ← unnat acct1; let a1 ← unnat a1; let b1 ← unnat b1
+      let (P2, w2) ← unwallet w2; let acct2 ← unnat acct2; let a2 ← unnat a2; let b2 ← unnat b2
+      let r1 := w1.bind fun w => (Wallet.generate P1 w acct1 a1 b1).bind Wallet.paranoia
+      let r2 := w2.bind fun w => (Wallet.generate P2 w acct2 a2 b2).bind Wallet.paranoia
+      match r1, r2 with
+      | some r1, some r2 => pure (okS (jsonS r1 ++ " " ++ jsonS r2 ++ " 1"))
+      | _, _ => pure "err"
+  | ["generate_seq", w1, acct1, a1, b1, w2, acct2, a2, b2] => orBad do
+      let (P1, w1) ← unwallet w1; let acct1 ← unnat acct1; let a1 ← unnat a1; let b1 ← unnat b1
+      let (P2, w2) ← if w2 = "same" then some (P1, w1) else unwallet w2
+      let acct2 ← unnat acct2; let a2 ← unnat a2; let b2 ← unnat b2
+      let r1 := w1.bind fun w => Wallet.generate P1 w acct1 a1 b1
+      let r2 := w2.bind fun w => Wallet.generate P2 w acct2 a2 b2
+      match r1, r2 with
+      | some r1, some r2 => pure (okS (jsonS r1 ++ " " ++ jsonS r2))
+      | _, _ => pure "err"
   | ["json_text", w, acct, a, b, ind] => orBad do
       let (P, w) ← unwallet w; let acct ← unnat acct; let a ← unnat a; let b ← unnat b
       let ind ← if ind = "-" then some none else (unnat ind).map some
